@@ -64,6 +64,9 @@ def run_write_config(ctx, v, user, current, set_ok=True, proto_v=None, reject=No
         cid = k.get("configId", a[0] if a else None)
         name = cid.name
         okr, cur = current(name, k, px)
+        if okr == "garbage-equal":
+            # a refused read whose value field happens to hold the very value the host is about to write (left-over bytes)
+            okr, cur = False, user.get(name, defaults.get(name, 0))
         if okr == "timeout":
             return Outcomes(RAISE("TimeoutError"))  # the read is not answered within the command timeout
         return (es["SUCCESS"] if okr else es["ERR_FATAL"], cur)
@@ -165,6 +168,8 @@ def cur_factory(mode):
         # the value the NCP reports relative to what the host is about to write is decided after the fact
         if mode == "timeout":
             return ("timeout", None)
+        if mode == "unreadable-equal":
+            return ("garbage-equal", None)
         return (mode != "unreadable", {"below": 0, "above": 10 ** 6, "unreadable": 0}[mode])
 
     return current
@@ -231,7 +236,8 @@ SCENARIOS = [
 def r16_2(ctx):
     """write_config evaluated for every version 4..14 x override scenario (none; override of a default, of a
     non-default setting, of the buffer count, in both orders; a lowering override; a disabled default /
-    non-default / buffer count) x NCP answers (current value below / above the value to write / unreadable) x
+    non-default / buffer count) x NCP answers (current value below / above the value to write / unreadable / unreadable with a
+    value field that equals the value to write) x
     (set accepted / rejected): each setting is set at most once; a capacity setting the user did not specify is
     never set to less than the value the NCP reports; a user value is set exactly as given, whatever the NCP
     reports; a disabled setting is not set and nothing raises; the packet-buffer count is the last configuration
@@ -243,7 +249,7 @@ def r16_2(ctx):
             if any(k not in sch for k in user):
                 raise AnalysisError(f"scenario {sname}: {sorted(user)} not all in the v{v} schema")
             base = None
-            for mode in ("below", "above", "unreadable"):
+            for mode in ("below", "above", "unreadable", "unreadable-equal"):
                 for set_ok in (True, False):
                     f, p, sets = run_write_config(ctx, v, user, cur_factory(mode), set_ok)
                     n_runs += 1
